@@ -1,5 +1,6 @@
 """C05 — gap-free hash chain in every schedule and after every restart."""
 from checks.enginelib import *
+from checks import batchlib
 
 META = {
     "text": "Lean: component model Chain (commit = allocate tx id + chain + append in one step; batches; Init after a crash); theorems chain_ok (ids are positions, every hash digests its predecessor's hash and its own content, transaction ids 0,1,2… in log order, for the durable log and what is queued), chain_ok_durable, chain_after_crash. Tie: trace validation incl. the log content and an independent re-computation of every hash; oracle on what InsertLogs received across restarts.",
@@ -10,4 +11,13 @@ META = {
 
 
 def run(ctx):
+    area = batchlib.replay_area(ctx)
+    if area == batchlib.AREA:       # a replay of the component stage: the operation sequence alone
+        ctx.l1()
+        batchlib.run_batcher(ctx, 'C05')
+        return
     run_check(ctx, 'C05', ["chain"], lambda scn, run: concurrent(scn, run) or restarted(run), 'two writers overlapped or a restart happened')
+    if area is not None:
+        return
+    # stage 2: batching.Batcher + job.Runner as components of their own (batch boundaries, a stop with work queued, a failing runner call)
+    batchlib.run_batcher(ctx, 'C05')
